@@ -51,10 +51,10 @@ type E2EPlay struct {
 	Expect    []E2EFile
 }
 
-// writeE2E generates the plays.  immediate: every second actor's SIGHUP
-// handler exits right after printing its last line (else all handlers linger
-// 0.3 s, so that the line has certainly been read before the process is gone).
-func writeE2E(rng *rand.Rand, dir string, n int, immediate bool) {
+// writeE2E generates the plays.  immediate: every SIGHUP handler exits right
+// after printing its last line (else all handlers linger 0.3 s, so that the
+// line has certainly been read before the process is gone).  small: few lines.
+func writeE2E(rng *rand.Rand, dir string, n int, immediate, small bool) {
 	g := &Gen{R: rng, Modalities: cmd.VerifModalities()}
 	var plays []E2EPlay
 	for i := 0; i < n; i++ {
@@ -82,7 +82,11 @@ func writeE2E(rng *rand.Rand, dir string, n int, immediate bool) {
 		}
 		nums := map[string]*NumTok{}
 		var items []ItemGen
-		for _, it := range g.Lines(c, 40+rng.Intn(60), nums) {
+		nl := 40 + rng.Intn(60)
+		if small {
+			nl = 8 + rng.Intn(10)
+		}
+		for _, it := range g.Lines(c, nl, nums) {
 			if it.Kind == "line" {
 				items = append(items, it)
 			}
@@ -158,7 +162,8 @@ func writeE2E(rng *rand.Rand, dir string, n int, immediate bool) {
 			var data strings.Builder
 			ls := lines[a]
 			linger := "sleep 0.3; "
-			if immediate && ai%2 == 1 {
+			_ = ai
+			if immediate {
 				linger = ""
 				immediateOf[a] = true
 			}
